@@ -348,12 +348,13 @@ func runStages() (*stagesOut, error) {
 }
 
 const stagesHeader = `(* generated by vh-translate (harness/cmd/vh-translate/stages.go) from
-   pkg/extensions/{redis,amqp,kafka}/{main.go,helpers.go}: do not edit.
+   pkg/extensions/{redis,amqp,kafka,http}/{main.go,helpers.go} and pkg/extensions/dns/main.go: do not edit.
 
    prog_<ext>_<stage>: what Summarize / Represent (helpers inlined) do to the request and response
    maps, as a program of Shape/Access.v.  Tracked values are the variables "request"/"response"
    (entry.Request / entry.Response in Summarize) and everything derived from them by index,
-   assertion, range, comma-ok; every type assertion on a tracked value is an EAs site
+   assertion, range, comma-ok; every type assertion on a tracked value is an EAs site and every
+   index of a tracked slice with a constant an EIdx site
    (site = file index * site_file_mul + Go line, files in stage_files).
 
    Assumptions of the translation (trusted, exercised by the model-vs-implementation check):
@@ -368,7 +369,17 @@ const stagesHeader = `(* generated by vh-translate (harness/cmd/vh-translate/sta
    * operands are evaluated left to right; functions of other packages (fmt, strconv,
      encoding/json, sort, ...) do not panic and do not modify their arguments;
    * code that does no index / assertion / range on a tracked value is dropped; a condition on
-     untracked data is accepted only when both branches are such code.
+     untracked data is accepted only when both branches are such code;
+   * the JSON text of a value (json.Marshal) is never empty: len(text) > 0 is true;
+   * "x = e" in a branch of an "if" that stands in the block of x (e a tracked expression, a string
+     constant, a reflect.Kind) re-binds x for the rest of that block, which is translated inside
+     the branch (the continuation is duplicated);
+   * an interface{} compared with a string constant is a string test followed by the comparison;
+   * reflect.TypeOf(x) == nil is x == nil; the reflect.Kind of a non-nil decoded JSON value is Bool /
+     Float64 / String / Slice / Map according to its type, so a switch on it is a chain of dynamic
+     type tests (SIfOk); no decoded value has another kind;
+   * "for k := range m { keys = append(keys, k) } ... for _, k := range keys { ... m[k] ... }" is a
+     loop over m: the order of the iteration (the keys may have been sorted) is not modelled.
    Outside the model: panics from other causes (nil pointers, arithmetic, slicing or indexing of
    untracked data), the form of the output. *)
 `
